@@ -2,6 +2,7 @@ import SamVerif.Model.EnumLayout
 import SamVerif.Model.TailRec
 import SamVerif.Model.CpeSem
 import SamVerif.Model.TailStmt
+import SamVerif.Model.CpeProg
 import Driver.Util
 /-! Line-protocol driver for property C01 (model side): protocols `layout`, `tailrec`, `cpe`.
 Each line carries, after `##`, the model-side description of the same input that the harness
@@ -420,18 +421,92 @@ def tailstmtLine (rest : String) : String :=
           pure (n, b, r) : PI (Nat × Blk × Expr)).run (words prog, []) with
       | some ((n, b, r), (_, tb)) =>
         let f : TailStmt.Fn := { params := List.range n, body := b, ret := r }
+        let argv := match h.splitOn "|" with
+          | [_, a, _] => parseArgs a
+          | _ => []
+        let shape := s!"plain={plain b} good={good n b (asVar r)}"
         match rewriteFn f with
-        | none => "norewrite"
+        | none => "norewrite || " ++ ";".intercalate (argv.map fun a =>
+            showO (TailStmt.runRec Opt.evalTarget f 160 a)) ++ " || " ++ shape
         | some lf =>
-          let toks := ["fn f0 ["] ++ lf.params.map (nameStr tb) ++ ["]"] ++
-            [s!"while {lf.vars.length}" ++ String.join (lf.vars.map fun v =>
-              s!" {nameStr tb v.1} {exprStr tb v.2.1} {exprStr tb v.2.2}"), "{"] ++
-            blkToks tb lf.body ++ ["}", (match lf.breakCollector with | some x => nameStr tb x | none => "_")] ++
+          let (body, loopVals) := lf.emitted
+          let vars := lf.params.zip loopVals
+          let toks := ["fn f0 ["] ++ lf.params.map (fun p => nameStr tb (trp p)) ++ ["]"] ++
+            [s!"while {vars.length}" ++ String.join (vars.map fun v =>
+              s!" {nameStr tb v.1} {nameStr tb (trp v.1)} {exprStr tb v.2}"), "{"] ++
+            blkToks tb body ++ ["}", (match lf.breakCollector with | some x => nameStr tb x | none => "_")] ++
             [s!"ret {exprStr tb lf.ret} end"]
-          "prog " ++ " ".intercalate toks
+          "prog " ++ " ".intercalate toks ++ " || " ++ ";".intercalate (argv.map fun a =>
+            showO (TailStmt.runRec Opt.evalTarget f 160 a) ++ "/" ++
+            showO (TailStmt.runLoop Opt.evalTarget lf 160 a)) ++ " || " ++ shape
       | none => "bad-model-line"
     | _ => "bad-model-line"
   | none => "bad-model-line"
+
+/-! ### cpeprog: several mutually calling functions -/
+open TailRec CpeProg in
+partial def pbody : P PBody := do
+  let t ← tok
+  if t == "R" then do let e ← expr; pure (.ret e)
+  else if t == "I" then do let c ← expr; let a ← pbody; let b ← pbody; pure (.ite c a b)
+  else if t == "P" then do let n ← num; let es ← rep n expr; let k ← pbody; pure (.print es k)
+  else if t == "C" then do
+    let x ← tok
+    let g ← tok
+    let n ← num
+    let as ← rep n expr
+    let k ← pbody
+    match nameOf x with
+    | some x => pure (.call x (fnameOf g) as k)
+    | none => failure
+  else if t == "B" then do
+    let x ← tok
+    let o ← tok
+    let e1 ← expr
+    let e2 ← expr
+    let k ← pbody
+    match nameOf x, opOf o with
+    | some x, some o => pure (.bin x o e1 e2 k)
+    | _, _ => failure
+  else failure
+
+open TailRec CpeProg in
+def pfn : P PFn := do
+  let _ ← tok   -- "F"
+  let f ← tok
+  let n ← num
+  let b ← pbody
+  pure { name := fnameOf f, params := List.range n, body := b }
+
+open TailRec CpeProg in
+/-- The model's rewrite for every parameter the decision removes (per function, highest index first). -/
+def transformProg (prog : Prog) (states : List (Nat × List PState)) : Prog :=
+  states.foldl (fun pr (gs : Nat × List PState) =>
+    (List.range gs.2.length).reverse.foldl (fun pr i =>
+      match gs.2[i]? with
+      | some PState.unused => dropParam gs.1 i pr
+      | some (PState.c32 n) => substParam gs.1 i i n pr
+      | _ => pr) pr) prog
+
+open TailRec CpeProg in
+def cpeprogLine (rest : String) : String :=
+  match rest.splitOn "##" with
+  | [_, m] =>
+    match (do let n ← num; rep n pfn : P (List PFn)).run (words m) with
+    | some (prog, _) =>
+      let summ := prog.map CpeProg.fnOf
+      let states := prog.map fun fn =>
+        (fn.name, (List.range fn.params.length).map fun i => paramState summ (CpeProg.fnOf fn) i i)
+      let prog' := transformProg prog states
+      let fuel := 60
+      let showR := fun (r : Option CpeSem.Res) => match r with
+        | none => "none"
+        | some (ls, _) =>
+          (if ls.isEmpty then "-" else ",".intercalate (ls.map fun l => "_".intercalate (l.map toString))) ++ "|ret:0"
+      "ok " ++ ";".intercalate (states.map fun (f, ps) => s!"f{f}=" ++ ",".intercalate (ps.map showP)) ++ " " ++
+        showR (CpeProg.run Opt.evalTarget prog 0 fuel []) ++ " " ++ showR (CpeProg.run Opt.evalTarget prog' 0 fuel [])
+    | none => "bad-model-line"
+  | _ => "bad-model-line"
 
 def step (_ : Unit) (line : String) : Unit × String :=
   let line := line.trimAscii.toString
@@ -443,6 +518,7 @@ def step (_ : Unit) (line : String) : Unit × String :=
        else if k == "cpe" then cpeLine rest
        else if k == "cpesem" then cpesemLine rest
        else if k == "tailstmt" then tailstmtLine rest
+       else if k == "cpeprog" then cpeprogLine rest
        else "bad-line")
 
 end Driver.C01
